@@ -164,7 +164,7 @@ class Ctx:
                     elif recv_me and f.attr in ('__setitem__', 'append'):
                         ev.append(('recurse', u(c), s, None))
                     elif recv_me and f.attr in self.helper_writers:
-                        ev.append(('opaque', f.attr, s, None))
+                        ev.append(('opaque', f.attr, s, c))
                     elif f.attr in MUT_METHODS:
                         for r in sorted(self.roots(f.value, s)):
                             ev.append(('store', r if r in FLAG else 'other:' + r, s, None))
@@ -369,6 +369,11 @@ _FRESH_CALLS = {'np.zeros', 'np.ones', 'np.full', 'np.empty', 'np.zeros_like', '
                 'np.append', 'np.cumsum', 'np.repeat', 'np.clip'}
 
 
+# numpy functions whose result never shares memory with an argument
+_ALLOCATING = {'np.zeros', 'np.ones', 'np.full', 'np.empty', 'np.arange', 'np.concatenate', 'np.append', 'np.cumsum',
+               'np.repeat', 'np.copy', 'np.fromiter', 'np.diff', 'np.hstack', 'np.tile'}
+
+
 def _fresh(e):
     if isinstance(e, (ast.BinOp, ast.UnaryOp, ast.Compare, ast.Constant, ast.List, ast.ListComp)):
         return True
@@ -489,17 +494,26 @@ def rebuild_kind(cx, s):
         return 'flat'
     if any(isinstance(n, ast.Name) and n.id == cx.me for n in ast.walk(E)) and not is_pure(E):
         return 'unknown'        # computed from the receiver through a helper the rule cannot see through
+    if _mentions_attr(cx, E, '_data') and (_mentions_attr(cx, E, 'lengths') or _mentions_attr(cx, E, 'starts') or
+                                           any(isinstance(n, ast.Name) and _lengths_operand(cx, n) for n in ast.walk(E))):
+        # a pure function of the flat data AND the row lengths that is none of
+        # the accepted spellings (slices in a comprehension, np.split at the
+        # cumulated lengths, ...): possibly a re-expressed partition
+        return 'unknown'
     return None
 
 
-def typestate(ck, mod, qual, fn, cx, is_ctor=False):
-    rule = 'C06.D1.resync'
+def _flow(cx, entry, summaries=None):
+    """Forward may-analysis of one method from the entry state `entry`:
+    (OUT, illegal, unknown).  A call of a private writer helper is replaced by
+    the helper's exit state for the state at the call (context-sensitive
+    summary, `summaries`)."""
     cfg = cx.fi.cfg
     body_nodes = [n for n in cfg.nodes if n not in (ENTRY, EXIT) and not isinstance(n, Assume)]
     kinds = {n: rebuild_kind(cx, n) for n in body_nodes}
     IN = {n: None for n in cfg.nodes}
     OUT = {n: None for n in cfg.nodes}
-    OUT[ENTRY] = frozenset()
+    OUT[ENTRY] = frozenset(entry)
     work = [n for n in cfg.nodes if n != ENTRY]
     illegal = {}
     unknown = {}
@@ -538,9 +552,13 @@ def typestate(ck, mod, qual, fn, cx, is_ctor=False):
                 elif kind == 'recurse':
                     new.clear()
                 elif kind == 'opaque':
-                    unknown[n] = ('call of the private writer helper %s.%s: its effect on the representations is not '
-                                  'summarised (no inter-procedural typestate)' % (CLS, what))
-                    new.clear()
+                    res = summaries.exit_state(cx, what, extra, frozenset(new), n) if summaries is not None else None
+                    if res is None or res[0] is None:
+                        unknown[n] = ('call of the private writer helper %s.%s: its effect on the representations is not '
+                                      'summarised (%s)' % (CLS, what, res[1] if res else 'no inter-procedural typestate'))
+                        new.clear()
+                    else:
+                        new = set(res[0])
                 elif kind in ('store', 'rebind'):
                     if what in FLAG:
                         new.add(FLAG[what])
@@ -550,6 +568,94 @@ def typestate(ck, mod, qual, fn, cx, is_ctor=False):
             for s in cfg.succ.get(n, []):
                 if s not in work:
                     work.append(s)
+    return OUT, illegal, unknown
+
+
+class Summaries:
+    """Context-sensitive summaries of the private writer helpers of the class:
+    exit state of `self._h(...)` for the typestate at the call.  Every call
+    site is visible (the name is private), the helper is analysed with the
+    state of each call, its illegal orders are reported in the helper."""
+
+    def __init__(self, ck, mod, ctxs):
+        self.ck, self.mod, self.ctxs = ck, mod, ctxs
+        self.memo = {}
+        self.active = set()
+        self.reported = set()
+        self.events = {}
+
+    def _opaque_reason(self, hx):
+        """None when the helper's effect is exactly its own events on the
+        receiver: no generator, no nested function touching the receiver, no
+        representation escaping through the return value."""
+        fn = hx.fn
+        if fn.args.vararg is not None or fn.args.kwarg is not None:
+            return 'star-arguments'
+        if fn.decorator_list:
+            return 'decorated helper'
+        for x in ast.walk(fn):
+            if isinstance(x, (ast.Yield, ast.YieldFrom, ast.Await)):
+                return 'generator'
+            if x is not fn and isinstance(x, (ast.FunctionDef, ast.AsyncFunctionDef, ast.Lambda)) and \
+                    any(isinstance(y, ast.Name) and y.id == hx.me for y in ast.walk(x)):
+                return 'nested function over the receiver'
+        for r in returns_of(fn):
+            if r.value is not None and hx.roots(r.value, r):
+                return 'a representation escapes through its return value'
+        return None
+
+    def exit_state(self, cx, name, call, state, at):
+        q = CLS + '.' + name
+        hx = self.ctxs.get(q)
+        if hx is None:
+            return None, 'helper not found'
+        why = self._opaque_reason(hx)
+        if why:
+            return None, why
+        # arguments that denote a representation and are stored into by the helper
+        if call is not None:
+            _, ea = shared(self.ck.repo)
+            muts = ea.mutated_params(self.mod.rel, q)
+            hps = hx.params[1:]
+            bound = list(zip(hps, call.args)) + [(k.arg, k.value) for k in call.keywords]
+            for p, a in bound:
+                if isinstance(a, ast.Starred) or p is None:
+                    return None, 'star-arguments at the call'
+                if cx.roots(a, at) and (p in muts or p not in hps):
+                    return None, 'a representation is passed to the helper, which stores into that parameter'
+        key = (name, state)
+        if key in self.memo:
+            return self.memo[key], ''
+        if name in self.active:
+            return None, 'recursive helpers'
+        self.active.add(name)
+        try:
+            OUT, illegal, unknown = _flow(hx, state, self)
+        finally:
+            self.active.discard(name)
+        cfg = hx.fi.cfg
+        for n, msg in illegal.items():
+            if id(n) not in self.reported:
+                self.reported.add(id(n))
+                self.ck.bad('C06.D1.resync.order', self.mod, n, q, u(n)[:160], msg + ' (helper entered in state %s)' % sorted(state))
+        if unknown:
+            n, msg = next(iter(unknown.items()))
+            self.memo[key] = None
+            return None, 'inside %s L%s: %s' % (q, getattr(n, 'lineno', '?'), msg)
+        res = frozenset()
+        for p in cfg.pred.get(EXIT, []):
+            if OUT.get(p) is not None and not isinstance(p, ast.Raise):
+                res |= OUT[p]
+        self.memo[key] = res
+        self.events[name] = sum(len(hx.events(n)) for n in cfg.nodes if n not in (ENTRY, EXIT) and not isinstance(n, Assume))
+        return res, ''
+
+
+def typestate(ck, mod, qual, fn, cx, is_ctor=False, summaries=None):
+    rule = 'C06.D1.resync'
+    cfg = cx.fi.cfg
+    body_nodes = [n for n in cfg.nodes if n not in (ENTRY, EXIT) and not isinstance(n, Assume)]
+    OUT, illegal, unknown = _flow(cx, frozenset(), summaries)
     n_events = sum(len(cx.events(n)) for n in body_nodes)
     for n, why in illegal.items():
         ck.bad(rule + '.order', mod, n, qual, u(n)[:160], why)
@@ -582,6 +688,29 @@ def typestate(ck, mod, qual, fn, cx, is_ctor=False):
 
 def _is_private(name):
     return name.startswith('_') and not (name.startswith('__') and name.endswith('__'))
+
+
+def _uses_of_private(repo, mod, name, ctxs):
+    """Uses of the private method `name`: (callers inside the class calling it
+    as a method of their receiver, other references anywhere in the package)."""
+    calls, refs = [], []
+    for m in repo.all_modules():
+        own = {}
+        if m is mod:
+            for q, cx in ctxs.items():
+                for c in walk_local(cx.fn):
+                    if isinstance(c, ast.Call) and isinstance(c.func, ast.Attribute) and c.func.attr == name and \
+                            isinstance(c.func.value, ast.Name) and c.func.value.id == cx.me:
+                        own[id(c.func)] = q
+        for x in ast.walk(m.tree):
+            if isinstance(x, ast.Attribute) and x.attr == name:
+                if id(x) in own:
+                    calls.append(own[id(x)])
+                else:
+                    refs.append('%s L%s' % (m.rel, getattr(x, 'lineno', '?')))
+            elif isinstance(x, ast.Constant) and x.value == name and m is mod:
+                refs.append('%s L%s (string)' % (m.rel, getattr(x, 'lineno', '?')))
+    return calls, refs
 
 
 def d1_writers(ck, mod):
@@ -618,16 +747,39 @@ def d1_writers(ck, mod):
              'the writers are exactly __init__, __setitem__ and append',
              'a method outside {__init__, __setitem__, append} writes a representation: %s' % (
                  public_extra or sorted(WRITERS - set(names))))
-    for n in extra:
-        if _is_private(n):
-            ck.missing('C06.D1.writers', 'private helper method %s.%s writes a representation: the typestate of its '
-                       'callers would need its summary (inter-procedural analysis not implemented)' % (CLS, n))
+    summaries = Summaries(ck, mod, ctxs)
     total = 0
     for q, fn in writers:
         name = q.split('.', 1)[1]
         if _is_private(name):
             continue
-        total += typestate(ck, mod, q, fn, ctxs[q], is_ctor=q.endswith('__init__'))
+        total += typestate(ck, mod, q, fn, ctxs[q], is_ctor=q.endswith('__init__'), summaries=summaries)
+    total += sum(summaries.events.values())
+    # private helper methods that write a representation: analysed in the
+    # context of every call (above); nothing else may refer to them
+    inl = (getattr(ck.repo, 'inlined', {}) or {}).get(mod.rel, {})
+    for n in extra:
+        if not _is_private(n):
+            continue
+        hq = CLS + '.' + n
+        calls, refs = _uses_of_private(ck.repo, mod, n, ctxs)
+        into = sorted(c for c, hs in inl.items() if n in hs or hq in hs)
+        if refs:
+            ck.missing('C06.D1.writers', 'private helper method %s writes a representation and is referred to other than as '
+                       '`self.%s(...)` inside the class (%s): not every context of it is visible' % (hq, n, refs[0]))
+        elif calls:
+            if n in summaries.events:
+                ck.ok('C06.D1.writers', mod, mod.func(hq), '%s: private writer helper' % hq,
+                      'analysed with the typestate of each of its call sites (%s)' % ', '.join(sorted(set(calls))))
+            else:
+                ck.missing('C06.D1.writers', 'private helper method %s writes a representation but no call of it from a '
+                           'writer could be summarised' % hq)
+        elif into:
+            ck.ok('C06.D1.writers', mod, mod.func(hq), '%s: extracted private helper, inlined into every caller' % hq,
+                  'its representation events were analysed inside %s' % ', '.join(into))
+        else:
+            ck.missing('C06.D1.writers', 'private helper method %s writes a representation and is never called inside the '
+                       'class: the typestate of its (external) callers is unknown' % hq)
     ck.floor('C06.D1.resync', total, 12, 'representation events')
     return writers, pure
 
@@ -689,12 +841,60 @@ def _wrap_return(ck, rule, mod, q, cx):
 
 def _check_same_lengths(ck, rule, mod, q, cx, r, E, what):
     lens = arg_or_kw(E, 1, 'lengths')
-    if lens is not None and cx.is_me_attr(lens, 'lengths'):
+    me_l = '%s.lengths' % cx.me
+    # the constructor copies its lengths argument (D3): a copy of self.lengths is the same row structure
+    forms = [me_l, '%s.copy()' % me_l, 'np.array(%s)' % me_l, 'np.asarray(%s)' % me_l, 'np.copy(%s)' % me_l, '%s[:]' % me_l]
+    if lens is not None and any(match(f, lens) is not None for f in forms):
         ck.ok(rule, mod, r, '%s: lengths=%s' % (q, u(lens)), 'new object with the same row lengths')
         return True
     v = 'near' if lens is None else _near_far(cx, lens)
     ck.decide(v, rule, mod, r, q, u(r), '', '%s must wrap the new flat data with self.lengths (found lengths=%s)' % (what, u(lens)))
     return False
+
+
+def _ragged_type_test(cx, test, oth):
+    """+1 when `test` holds exactly when `oth` is a ragged array of the
+    receiver's class, -1 for the negation, 0 when not recognised."""
+    from ..patterns import conjuncts, Cmp
+    cj = conjuncts(test, True)
+    if not cj or len(cj) != 1:
+        return 0
+    c = cj[0]
+    me = cx.me
+    klass = ('type(%s)' % me, '%s.__class__' % me, CLS)
+
+    def is_cls(e):
+        return any(match(k, e) is not None for k in klass)
+
+    def is_type_of_other(e):
+        return match('type(%s)' % oth, e) is not None or match('%s.__class__' % oth, e) is not None
+    if isinstance(c, Cmp):
+        if c.op not in (ast.Is, ast.Eq, ast.IsNot, ast.NotEq):
+            return 0
+        if (is_type_of_other(c.lhs) and is_cls(c.rhs)) or (is_type_of_other(c.rhs) and is_cls(c.lhs)):
+            return 1 if c.op in (ast.Is, ast.Eq) else -1
+        return 0
+    if isinstance(c, tuple) and c[0] == 'expr':
+        e = c[1]
+        if isinstance(e, ast.Call) and call_name(e) == 'isinstance' and len(e.args) == 2 and not e.keywords and \
+                isinstance(e.args[0], ast.Name) and e.args[0].id == oth and is_cls(e.args[1]):
+            return 1 if c[2] else -1
+    return 0
+
+
+def _operand_guard(ck, rule, mod, q, cx, oth, site, tests):
+    """The replacement of the right operand by its flat data happens exactly
+    for ragged operands: `tests` = [(test expr, polarity)] known at the
+    replacement."""
+    verdicts = [_ragged_type_test(cx, t, oth) * (1 if pol else -1) for t, pol in tests]
+    con = '%s under %s' % (u(site)[:80], ' and '.join(('%s' if pol else 'not (%s)') % u(t) for t, pol in tests) or '<no condition>')
+    if any(v > 0 for v in verdicts) and not any(v < 0 for v in verdicts):
+        ck.ok(rule, mod, site, con, 'the flat data replaces the right operand exactly when it is a ragged array')
+    elif any(v < 0 for v in verdicts):
+        ck.bad(rule, mod, site, q, con, 'the right operand is replaced by its flat data when it is NOT a ragged array (and kept as '
+               'an object when it is one): element-wise operators between ragged arrays no longer act on the flat data')
+    else:
+        ck.missing(rule, '%s: condition under which the right operand is replaced by its flat data not recognised: %s' % (q, con[:160]))
 
 
 def d2_map_operator(ck, mod, rule):
@@ -744,6 +944,10 @@ def d2_map_operator(ck, mod, rule):
             dvx = cx.vexpand(dv, sites[0]) if dv is not None else None
             if dvx is not None and u(dvx) == flat_other and cx.fi.rd.defs_at(sites[0], oth) == {'PARAM'}:
                 ck.ok(rule, mod, sites[0], u(sites[0]), msg_ok)
+                cfg = cx.fi.cfg
+                tests = [(n.test, n.polarity) for n in cfg.nodes if isinstance(n, Assume) and cfg.dominates(n, sites[0]) and
+                         any(isinstance(x, ast.Name) and x.id == oth for x in ast.walk(n.test))]
+                _operand_guard(ck, rule, mod, q, cx, oth, sites[0], tests)
             elif dvx is not None:
                 ck.decide(_near_far(cx, dvx), rule, mod, sites[0], q, u(sites[0]), '', msg_bad)
             else:
@@ -752,6 +956,7 @@ def d2_map_operator(ck, mod, rule):
             ck.missing(rule, '%s: definitions of the right operand `%s` not recognised' % (q, oth))
     elif isinstance(O, ast.IfExp) and ((u(O.body) == flat_other and u(O.orelse) == oth) or (u(O.orelse) == flat_other and u(O.body) == oth)):
         ck.ok(rule, mod, r, u(O), msg_ok)
+        _operand_guard(ck, rule, mod, q, cx, oth, O, [(O.test, u(O.body) == flat_other)])
     else:
         ck.decide(_near_far(cx, O), rule, mod, r, q, u(O), '', msg_bad)
 
@@ -829,6 +1034,62 @@ def d2_pure(ck, mod, pure):
 # ---------------------------------------------------------------------------
 # D3 copy on construction
 
+def _copy_flag(cx, e):
+    """+1 / -1 when the test `e` is the unmodified `copy` parameter / its
+    negation (also `copy is True`, `copy == False`, ...), else 0."""
+    from ..patterns import conjuncts, Cmp
+    cj = conjuncts(e, True)
+    if not cj or len(cj) != 1:
+        return 0
+    c = cj[0]
+    if isinstance(c, tuple) and c[0] == 'expr':
+        t = c[1]
+        if isinstance(t, ast.Name) and t.id == 'copy' and cx.param_only(t):
+            return 1 if c[2] else -1
+        return 0
+    if isinstance(c, Cmp) and isinstance(c.lhs, ast.Name) and c.lhs.id == 'copy' and cx.param_only(c.lhs) and \
+            isinstance(c.rhs, ast.Constant) and isinstance(c.rhs.value, bool) and c.op in (ast.Is, ast.Eq, ast.IsNot, ast.NotEq):
+        pos = c.op in (ast.Is, ast.Eq)
+        return 1 if pos == c.rhs.value else -1
+    return 0
+
+
+def _copy_flag_false_at(cx, s):
+    """Statement `s` is reached only with a falsy `copy` parameter."""
+    cfg = cx.fi.cfg
+    for n in cfg.nodes:
+        if isinstance(n, Assume) and cfg.dominates(n, s):
+            f = _copy_flag(cx, n.test)
+            if f and (f > 0) != bool(n.polarity):
+                return True
+    return False
+
+
+def _copy_making(cx, v):
+    """Three-valued: the (expanded) value of a definition of self._data owns
+    its buffer whenever the `copy` parameter is true."""
+    if isinstance(v, ast.IfExp):
+        f = _copy_flag(cx, v.test)
+        if f > 0:
+            return _copy_making(cx, v.body)
+        if f < 0:
+            return _copy_making(cx, v.orelse)
+        a, b = _copy_making(cx, v.body), _copy_making(cx, v.orelse)
+        return a if a == b else ('far' if 'far' in (a, b) else 'near')
+    if isinstance(v, ast.Call):
+        cn = call_name(v)
+        if cn in ('np.concatenate', 'np.hstack', 'np.vstack', 'np.stack', 'np.copy'):
+            return 'match'
+        if cn == 'np.array':
+            c = kwarg(v, 'copy')
+            inner_fresh = v.args and isinstance(v.args[0], (ast.ListComp, ast.List))
+            if inner_fresh or c is None or const_value(c) is True or (isinstance(c, ast.Name) and c.id == 'copy' and cx.param_only(c)):
+                return 'match'
+        elif isinstance(v.func, ast.Attribute) and v.func.attr == 'copy' and not v.args and not v.keywords:
+            return 'match'          # canonical form of np.array(<name>)
+    return _near_far(cx, v)
+
+
 def d3_copy(ck, mod):
     rule = 'C06.D3.copy-on-construction'
     fn = mod.func(CLS + '.__init__')
@@ -846,20 +1107,10 @@ def d3_copy(ck, mod):
         if cx.is_me_attr(s.targets[0], '_data'):
             n += 1
             v = cx.vexpand(s.value, s)
-            verdict = None
-            if isinstance(v, ast.Call):
-                cn = call_name(v)
-                if cn == 'np.concatenate':
-                    verdict = 'match'
-                elif cn == 'np.array':
-                    c = kwarg(v, 'copy')
-                    inner_fresh = v.args and isinstance(v.args[0], (ast.ListComp, ast.List))
-                    if inner_fresh or c is None or const_value(c) is True or (isinstance(c, ast.Name) and c.id == 'copy' and cx.param_only(c)):
-                        verdict = 'match'
-                elif isinstance(v.func, ast.Attribute) and v.func.attr == 'copy' and not v.args and not v.keywords:
-                    verdict = 'match'          # canonical form of np.array(<name>)
-            if verdict is None:
-                verdict = _near_far(cx, v)
+            if _copy_flag_false_at(cx, s):
+                ck.ok(rule + '.data', mod, s, u(s)[:140], 'reached only when the caller passed copy=False: no copy is promised')
+                continue
+            verdict = _copy_making(cx, v)
             ck.decide(verdict, rule + '.data', mod, s, F, u(s)[:140],
                       'flat data is built by a copying constructor honouring the copy flag',
                       'self._data must be np.concatenate(...) or np.array(array, copy=copy): np.asarray / a bare '
@@ -871,6 +1122,8 @@ def d3_copy(ck, mod):
             if isinstance(v, ast.Call):
                 c = kwarg(v, 'copy')
                 if call_name(v) == 'np.array' and (c is None or const_value(c) is True):
+                    verdict = 'match'
+                elif call_name(v) in _ALLOCATING:
                     verdict = 'match'
                 elif isinstance(v.func, ast.Attribute) and v.func.attr == 'copy' and not v.args and not v.keywords:
                     verdict = 'match'
@@ -903,6 +1156,85 @@ def d3_copy(ck, mod):
                         ck.bad(rule + '.lengths', mod, s, q, u(s), 'in-place update of self.lengths (shared between objects)')
 
 
+# ---------------------------------------------------------------------------
+# D5 the cells addressed by a write
+
+def _module_callees(mod, fn, depth=4):
+    """Module-level functions of `mod` called (transitively) from `fn`."""
+    out, todo = set(), [(fn, depth)]
+    while todo:
+        f, d = todo.pop()
+        for c in walk_local(f):
+            if isinstance(c, ast.Call) and isinstance(c.func, ast.Name) and c.func.id in mod.functions and c.func.id not in out:
+                out.add(c.func.id)
+                if d > 0:
+                    todo.append((mod.functions[c.func.id], d - 1))
+    return out
+
+
+def d5_write_addressing(ck, mod):
+    """The typestate (D1) shows that every store into the flat data is
+    followed by a rebuild of the rows; it says nothing about WHICH cells the
+    store addresses.  `a[rows, cols] = v` addresses `self._data[<flat index>]`
+    where the flat index comes from the index-conversion helpers of the module;
+    the writer agrees with the list-of-rows model only if (1) every flat-data
+    access of the writer takes its index from the checked conversion, (2) the
+    writer maps each (row index type, column index type) case to the same
+    helper with the same arguments as the reader, a row slice being expanded
+    against the number of rows, and (3) the generator of the (row, column)
+    pairs for a column slice keeps row ids and positions in the row selection
+    apart.  These are the index-space rules of the read path (C05.D1/D3/D4),
+    which analyse `__getitem__` and `__setitem__` together; they are obligations
+    of the write path as well and are run here for the helpers that
+    `__setitem__` actually reaches."""
+    rule = 'C06.D5.write-addressing'
+    W = CLS + '.__setitem__'
+    fn = mod.functions.get(W)
+    if fn is None:
+        ck.missing(rule, '%s not found' % W)
+        return
+    cx = Ctx(mod, fn)
+    # flat-data stores of the writer and the helpers their indices come from
+    stores = []
+    for n in cx.fi.cfg.nodes:
+        if n in (ENTRY, EXIT) or isinstance(n, Assume):
+            continue
+        for kind, what, stmt, _ in cx.events(n):
+            if kind == 'store' and what == '_data' and n not in stores:
+                stores.append(n)
+    callees = _module_callees(mod, fn)
+    try:
+        from . import C05
+        rules = [('_convert_from_2d', C05.d1_call_sites), ('_get_iis_from_list', None), ('_slice_to_list', C05.d3_row_count),
+                 (None, C05.d3_dispatch), ('_get_iis_from_slices', C05.d4_index_space)]
+    except (ImportError, AttributeError) as e:
+        ck.missing(rule, 'index-space rules of the read path (sa/rules/C05.py) not available: %r' % (e,))
+        return
+    if not stores:
+        ck.missing(rule, '%s: no store into the flat data found (the addressing of writes is not recognised)' % W)
+        return
+    n = 0
+    for helper, run in rules:
+        if helper is not None and helper not in callees:
+            ck.missing(rule, '%s does not reach the index-conversion helper %s: the flat index of `%s` is computed in a way '
+                       'the index-space rules do not cover' % (W, helper, u(stores[0])[:80]))
+            continue
+        n += 1
+        if run is not None:
+            run(ck, mod)
+    # the rebuild primitive: every 'flat' re-synchronisation of D1 is
+    # np.array(partition_list(self._data, lengths)); the rows agree with the
+    # flat data only if partition_list cuts consecutive pieces of those lengths
+    try:
+        from .C10 import d5_partition_list
+        d5_partition_list(ck)
+    except (ImportError, AttributeError) as e:
+        ck.missing(rule, 'rule for the rebuild primitive partition_list (sa/rules/C10.py d5_partition_list) not available: %r' % (e,))
+    ck.ok(rule, mod, fn, '%s: %d flat-data stores; index helpers reached: %s' % (W, len(stores), ', '.join(sorted(callees))),
+          'the index-space rules C05.D1.row-bounds.call-sites / C05.D3 / C05.D4 / C05.D7 apply to the write path')
+    ck.floor(rule, n, 5, 'index-space rule groups applied to the write path')
+
+
 def check(ck):
     del _REPO[:]
     _REPO.append(ck.repo)
@@ -912,6 +1244,7 @@ def check(ck):
     d3_copy(ck, mod)
     from .C05 import d7_constructor_and_lists
     d7_constructor_and_lists(ck, mod)
+    d5_write_addressing(ck, mod)
     # added after the seeding rounds (DESIGN.md 11.2, G5): every instance slot read by
     # the constructor is stored first, for every combination of its branch conditions
     from . import extra
